@@ -16,7 +16,7 @@ from rv.readers.reader import read_sunvox_file
 
 PROPERTY = "C01"
 LEVEL = "exploration"
-BUDGET_S = {"quick": 75, "thorough": 3600}
+BUDGET_S = {"quick": 150, "thorough": 3600}
 RULE = (
     "one evaluation = one seeded history of up to ~100 API operations (new module of any of the 42 types, set any "
     "catalogue slot incl. controllers/options/MIDI bindings/type-specific payload, connect/disconnect in every operand "
@@ -213,7 +213,16 @@ def generate(seed, i, tier="quick"):
         ops.append({"k": "save_load", "scribble": r.randrange(1000)} if r.random() < 0.3 else {"k": "save_load"})
     # swarm: half of the runs concentrate their slot edits on one module (position 1-3), so that
     # joint states of one module's type-specific payload are reached, not only single edits
-    if r.random() < 0.5:
+    u = r.random()
+    if u < 0.3:
+        # ... a third of the runs on a module of a payload-rich type, created first (position 1)
+        rich = ("Sampler", "Sampler", "Sampler", "Sampler", "MetaModule", "MultiSynth", "MultiCtl", "SpectraVoice", "Generator", "AnalogGenerator", "WaveShaper", "Fmx", "VorbisPlayer", "Sound2Ctl")
+        if ops and ops[0]["k"] == "mod":
+            ops[0] = {"k": "mod", "t": builder.TYPE_NAMES.index(r.choice(rich))}
+        for op in ops:
+            if op["k"] == "set" and r.random() < 0.75:
+                op["m"] = 1
+    elif u < 0.6:
         fm = r.randint(1, 3)
         for op in ops:
             if op["k"] == "set" and r.random() < 0.6:
